@@ -818,6 +818,9 @@ def build_modules(ctx, progs, per_module, prefix="c22m"):
 MODHEAD = "# cython: language_level=3\nfrom c22h import _b, _p, _t, _h, _new, _cm, E3, E4, E5\n"
 
 
+DEFERRED = []          # failures reported after the behavioural ones (a run-time witness is more telling)
+
+
 def build_all(ctx, specs, index):
     """build; a module that does not build is split into one module per function so that the
     failing programs are identified (ctx.fail) and the others still run.  Returns the usable index."""
@@ -843,7 +846,7 @@ def build_all(ctx, specs, index):
             out[k] = None
             nfail += 1
             inp = {"tag": ent[2], "tokens": " ".join(toks_block(ent[3])), "source": func_source(ent[1], ent[3])}
-            ctx.fail("valid_program_does_not_build", inp, str(err)[-1200:], "the function compiles (CPython runs it)")
+            DEFERRED.append(("valid_program_does_not_build", inp, str(err)[-1200:], "the function compiles (CPython runs it)"))
     if nfail == 0:
         for name, err in bad.items():
             ctx.corr_break("build " + name, name, str(err)[-1500:], "module builds")
@@ -989,11 +992,20 @@ def run(ctx):
                     seen.add(inn)
                     pick.append(t)
         tmpl = single + pick
-    specs, index = build_modules(ctx, progs, 6 if quick else 20)
-    tspecs, tindex = build_modules(ctx, tmpl, 5 if quick else 12, prefix="c22t")
-    specs_all = specs + tspecs
+    # templates and programs share modules: the fixed cost of a module (Cython start-up, 380 kB of
+    # boilerplate C) dominates the build
+    everything = []
+    a, b = list(progs), list(tmpl)
+    while a or b:                      # interleave so that every module gets both kinds
+        if a:
+            everything.append(a.pop(0))
+        if a:
+            everything.append(a.pop(0))
+        if b:
+            everything.append(b.pop(0))
+    specs_all, index_all = build_modules(ctx, everything, 9 if quick else 20)
     specs_all.append(dict(name="c22star", source="# cython: language_level=3\n" + STAR, workdir=ctx.workdir, cflags=["-O0"]))
-    usable = build_all(ctx, specs_all, index + tindex)
+    usable = build_all(ctx, specs_all, index_all)
     index = [e for e in usable if not e[2].startswith("tmpl/")]
     tindex = [e for e in usable if e[2].startswith("tmpl/")]
     lap("build")
@@ -1011,7 +1023,7 @@ def run(ctx):
                 ctx.corr_break("exc:c-parse", mod, repr(e)[:300], "generated C parses")
         sq.append("sites " + " ".join(toks_block(ent[3])))
     sres = model.batch(sq)
-    nstatic = 0
+    nstatic = nbad = 0
     for ent, line in zip(index + tindex, sres):
         mod, fn, tag, p = ent[:4]
         real = csites.get(mod, {}).get(fn)
@@ -1024,10 +1036,11 @@ def run(ctx):
         bad = match_labels(real, parse_sites(line))
         nstatic += len(real)
         if bad is not None:
+            nbad += 1
             ctx.corr_break("exc:error-label-of-block", {"tag": tag, "source": func_source(fn, p)}, bad[:600],
                            "the label selection of M_ExcLab.gen")
     ctx.count("static/error-label-of-block-marker", nstatic)
-    lap("static")
+    lap("static (%d functions with a label mismatch)" % nbad)
     # ---------------- run: compiled and CPython, three calling contexts ----------------
     cases, meta = [], []
     for (mod, fn, tag, p) in index:
@@ -1124,6 +1137,9 @@ def run(ctx):
             if nviol <= 40:
                 ctx.fail(klass, inp, cy, py)
     lap("compare")
+    for f in DEFERRED:
+        ctx.fail(*f)
+    del DEFERRED[:]
     ctx.extra["templates"] = len(tindex)
     ctx.extra["template_plan_cases"] = sum(3 * len(x) for x in tplans)
     # --- except*: differential only
